@@ -7,12 +7,13 @@ searches for an interleaving of the two logs that the specification allows (Trac
 from __future__ import annotations
 
 import asyncio
+import functools
 import threading
 import time
 
 from .core import Ctx
 
-KINDS = ("coroVal", "coroRaise", "plainNone", "plainVal", "plainRaise", "notCallable", "plainZero", "plainFalse", "plainEmpty")
+KINDS = ("coroVal", "coroRaise", "plainNone", "plainVal", "plainRaise", "notCallable", "plainZero", "plainFalse", "plainEmpty", "plainWraps")
 
 
 class Wrapped:
@@ -73,6 +74,14 @@ class Wrapped:
     def plainEmpty(self, i):
         self._rec(i)
         return b""
+
+    async def _inner_coro(self, i):
+        return i
+
+    def plainWraps(self, i):
+        """a plain function carrying the metadata of a coroutine function (functools.wraps): still a plain method - queued, runs on the owner"""
+        self._rec(i)
+    plainWraps = functools.wraps(_inner_coro)(plainWraps)
 
     def report(self, loop, context):
         """exception handler of the owner's loop: what the loop reports for a callback it ran (per-thread log, owner side)"""
